@@ -116,9 +116,30 @@ def unescape(lit):
 # ------------------------------------------------------------------------------------------------ executor
 
 class Exec:
-    def __init__(self, blocks):
+    def __init__(self, blocks, mir=None):
         self.blocks = blocks
         self.paths = []
+        self.mir = mir
+
+    def resolve_const(self, text):
+        """`const path::promoted[N]` and named `&str` constants are looked up in the MIR dump"""
+        if self.mir is None:
+            return None
+        m = re.search(r"([A-Za-z_0-9]+)::promoted\[(\d+)\]$", text)
+        if m:
+            mm = re.search(r"^const [^\n]*" + re.escape(m.group(1)) + r"::promoted\[" + m.group(2) + r"\]: [^\n]*\{\n(.*?)^\}", self.mir, re.M | re.S)
+            if mm:
+                sub = Exec(parse_blocks("fn x() {\n" + mm.group(1) + "}\n"), self.mir)
+                sub.run()
+                if sub.paths:
+                    return sub.paths[0][1]
+            return None
+        m = re.search(r"::([A-Z][A-Z0-9_]*)$", text)
+        if m:
+            mm = re.search(r'^const ' + m.group(1) + r': &str = const "(.*)";$', self.mir, re.M)
+            if mm:
+                return ("str", unescape(mm.group(1)).decode())
+        return None
 
     def operand(self, env, t):
         t = t.strip()
@@ -130,7 +151,8 @@ class Exec:
         if m:
             return ("str", unescape(m.group(1)).decode())
         if t.startswith("const "):
-            return ("const", t[6:])
+            r = self.resolve_const(t[6:])
+            return r if r is not None else ("const", t[6:])
         m = re.match(r"^(?:copy|move) (.*)$", t)
         if m:
             return self.place(env, m.group(1))
